@@ -23,9 +23,9 @@ def _dispatch(m, parts):
     return 'return %s(self, %s)' % (target, ', '.join(parts))
 
 
-RULES = [S(r'std::forward<Context>\(ctx\)', 'VX_FWD_CTX', min=0, name='R13:std::forward<Context>(ctx) keeps the value category'),
-         S(r'(?<![\w.>])ctx\b', 'vx_lvalue(ctx)', min=0, name='R13:a bare parameter name is an lvalue'),
-         S(r'VX_FWD_CTX', 'ctx', min=0, name='R13:forwarded'),
+RULES = [S(r'std::forward<Context>\(ctx\)', 'VX_FWD_CTX', min=0, name='R20:std::forward<Context>(ctx) keeps the value category'),
+         S(r'(?<![\w.>])ctx\b', 'vx_lvalue(ctx)', min=0, name='R20:a bare parameter name is an lvalue'),
+         S(r'VX_FWD_CTX', 'ctx', min=0, name='R20:forwarded'),
          S(r'utils::no_stream error_stream;', 'vx_val error_stream = VX_NO_STREAM;', min=0, name='R13:local no_stream'),
          S(r'parse_options\{\}', 'vx_default_options()', min=0, name='R13:parse_options{}'),
          S(r'no_type\{\}', 'vx_no_ctx()', min=0, name='R13:no_type{}'),
